@@ -43,6 +43,11 @@ def decorate(rng, item):
     for e in extra:
         item.items.insert(rng.randint(0, len(item.items)), e)
     for m in item.methods():
+        if rng.random() < 0.35:
+            # nested items and closures inside a HANDLER body (for a trait: a default body): their parameter attributes
+            # are not attributes on handler parameters and stay
+            m.body = ("{ fn nested(#[allow(unused_variables)] z: u8, #[cfg(any())] w: u8) -> u8 { 0 } "
+                      "let _c = |#[allow(unused)] q: u8| q; struct Local { #[allow(dead_code)] f: u8 } todo!() }")
         if rng.random() < 0.3:
             m.attrs.insert(rng.randint(0, len(m.attrs)), foreign("doc", None) if False else Attr(("doc",), "hidden"))
         if rng.random() < 0.2:
